@@ -686,16 +686,15 @@ static int32_t tls13CheckHsState(ssl_t *ssl,
     }
     /*
       The server may send a NewSessionTicket at any time after
-      it has received the client's Finished message.
-      In our state machine, there are two allowed states for this:
-      - SSL_HS_DONE (after having received and sent Finished)
-      - SSL_HS_TLS_1_3_WAIT_FINISHED (after having sent our Finished,
-      but before having received the server Finished.)
+      it has received the client's Finished message. The client sends
+      its Finished only after having verified the server Finished, so
+      the only state in which a NewSessionTicket is legal is SSL_HS_DONE.
+      (In SSL_HS_TLS_1_3_WAIT_FINISHED the server is not authenticated
+      yet and the resumption master secret does not exist.)
     */
     else if (!MATRIX_IS_SERVER(ssl) &&
             msg == SSL_HS_NEW_SESSION_TICKET &&
-            (ssl->hsState == SSL_HS_DONE ||
-            ssl->hsState == SSL_HS_TLS_1_3_WAIT_FINISHED))
+            ssl->hsState == SSL_HS_DONE)
     {
         return PS_SUCCESS;
     }
